@@ -8,8 +8,8 @@ package main
 
 import (
 	"crypto/sha1"
-	"encoding/json"
 	"encoding/hex"
+	"encoding/json"
 	"flag"
 	"fmt"
 	"io"
@@ -35,6 +35,8 @@ type image struct {
 	InRw     bool // taken while a rewrite was in progress
 	RwBegin  int  // number of acknowledged commands when the (last) rewrite began, -1 if none yet
 	SnapSeen int  // number of snapshots completed (snap.done) before this point
+	RwN      int  // number of rewrites begun so far (the one in progress included)
+	RwStage  string
 }
 
 func copyFile(src, dst string) error {
@@ -105,6 +107,7 @@ type recorder struct {
 	seq     int
 	inRw    bool
 	rwBegin int
+	rwN     int
 	snaps   int
 	writes  int // number of aof.log.write points so far
 	images  []image
@@ -112,13 +115,33 @@ type recorder struct {
 	clock   *sugardb.VerifClock
 	ep      Epoch
 	wanted  func(name string) bool
+	// interleave, when set, is called (without the recorder lock) at the named point of a rewrite:
+	// it executes one write from "another client" inside the rewrite window.
+	interleaveAt string
+	interleave   func()
+	rwTrunc      int    // acknowledged commands when the log was truncated by the rewrite in progress
+	nested       bool   // a client command is running inside the rewrite window
+	rwStage      string // last file operation of the rewrite in progress
 }
 
 func (rc *recorder) handle(name string, args ...any) {
 	rc.mu.Lock()
+	if rc.armed && rc.inRw && rc.interleave != nil && name == rc.interleaveAt {
+		f := rc.interleave
+		rc.interleave = nil
+		rc.mu.Unlock()
+		f()
+		rc.mu.Lock()
+	}
 	defer rc.mu.Unlock()
 	if !rc.armed {
 		return
+	}
+	if rc.inRw && !rc.nested && (name == "cmd.handled" || name == "cmd.logged") {
+		name = "rw.done" // the REWRITEAOF command itself completing: not a workload command
+	}
+	if rc.inRw && !rc.nested {
+		rc.rwStage = name
 	}
 	switch name {
 	case "cmd.handled":
@@ -129,9 +152,12 @@ func (rc *recorder) handle(name string, args ...any) {
 		rc.synced = fileSize(filepath.Join(rc.dir, "aof", "log.aof"))
 	case "aof.log.truncate":
 		rc.synced = 0
+		rc.rwTrunc = rc.acked
 	case "aof.pre.copied":
 		rc.inRw = true
 		rc.rwBegin = rc.acked
+		rc.rwN++
+		rc.rwStage = name
 	case "snap.done":
 		rc.snaps++
 	}
@@ -151,7 +177,7 @@ func (rc *recorder) handle(name string, args ...any) {
 			rc.images = append(rc.images, image{
 				Label: name, Seq: rc.seq, Acked: rc.acked, Exec: rc.exec, Dir: dst,
 				LogSize: fileSize(filepath.Join(dst, "aof", "log.aof")), Synced: rc.synced,
-				NowMs: rc.ep.Rel(rc.clock.Now()), InRw: rc.inRw, RwBegin: rc.rwBegin, SnapSeen: rc.snaps,
+				NowMs: rc.ep.Rel(rc.clock.Now()), InRw: rc.inRw, RwBegin: rc.rwBegin, SnapSeen: rc.snaps, RwN: rc.rwN, RwStage: rc.rwStage,
 			})
 		}
 	}
@@ -167,7 +193,15 @@ func restoreFrom(imgDir, work string, nowMs int64, aof, snap bool, sync string) 
 	if err := copyTree(imgDir, d); err != nil {
 		return nil, "", err
 	}
-	s, err := NewSrv(SrvOpts{DataDir: d, RestoreAOF: aof, RestoreSnapshot: snap, AOFSync: sync, StartMs: nowMs})
+	var s *Srv
+	func() {
+		defer func() {
+			if p := recover(); p != nil {
+				err = fmt.Errorf("panic during restore: %v", p)
+			}
+		}()
+		s, err = NewSrv(SrvOpts{DataDir: d, RestoreAOF: aof, RestoreSnapshot: snap, AOFSync: sync, StartMs: nowMs})
+	}()
 	return s, d, err
 }
 
@@ -179,6 +213,7 @@ type persistOpts struct {
 	length int
 	cuts   string // none | last | all
 	again  int    // 1-in-N images get the durable-again continuation
+	inter  bool   // rewrite mode: interleave a write of another client into the rewrite window
 }
 
 func cmdPersist(args []string) {
@@ -192,6 +227,7 @@ func cmdPersist(args []string) {
 	fs.IntVar(&o.n, "n", 10, "workloads")
 	fs.IntVar(&o.length, "len", 10, "commands per workload")
 	fs.StringVar(&o.cuts, "cuts", "last", "power-loss cuts: none | last | all")
+	fs.BoolVar(&o.inter, "inter", false, "rewrite mode: a second client writes inside the rewrite window")
 	fs.IntVar(&o.again, "again", 4, "1-in-N images are continued (write, restart) to check durable-again")
 	_ = fs.Parse(args)
 	quiet()
@@ -234,6 +270,7 @@ func cmdPersist(args []string) {
 type persistStep struct {
 	Step
 	Special string // "" | "rewrite" | "save"
+	Inter   []Tok  // rewrite only: a write executed by another client inside the rewrite window
 }
 
 func runPersistWorkload(tr *Trace, w int, o persistOpts, r *rand.Rand, work string, tot map[string]int, samples *[]any) error {
@@ -264,46 +301,21 @@ func runPersistWorkload(tr *Trace, w int, o persistOpts, r *rand.Rand, work stri
 	rc.mu.Unlock()
 
 	ncmd := 0
-	for _, s := range steps {
-		if s.Tick > 0 {
-			srv.Clock.AdvanceMs(s.Tick)
-		}
-		now := srv.Now()
-		switch {
-		case s.Kind == "select":
-			if err := srv.DB.SelectDB(s.Db); err != nil {
-				return err
-			}
-			srv.EmbDB = s.Db
-			continue
-		case s.Special == "rewrite":
-			var rerr error
-			if oc, why := srv.guarded(func() { _, rerr = srv.DB.ExecuteCommand("REWRITEAOF") }); oc != "" {
-				tr.Emit(map[string]any{"ev": "rewrite", "run": w, "now": now, "err": oc + ": " + why})
-				return nil
-			}
-			rc.mu.Lock()
-			rc.inRw = false
-			rc.mu.Unlock()
-			ev := map[string]any{"ev": "rewrite", "run": w, "now": now, "acked": ncmd}
-			if rerr != nil {
-				ev["err"] = rerr.Error()
-			}
-			tr.Emit(ev)
-			continue
-		}
+	// runCmd executes one workload command and records it; false = the server is gone
+	runCmd := func(cmd []Tok, now int64) bool {
 		dbBefore := srv.EmbDB
 		rc.mu.Lock()
 		writesBefore := rc.writes
 		rc.mu.Unlock()
-		rep := srv.Exec(s.Cmd)
-		rep = srv.relTimeReply(s.Cmd, rep)
+		rep := srv.Exec(cmd)
+		rep = srv.relTimeReply(cmd, rep)
 		ev := map[string]any{"ev": "cmd", "run": w, "now": now, "db": strconv.Itoa(dbBefore),
-			"cmd": toksJSON(s.Cmd), "r": rep.JSON()}
+			"cmd": toksJSON(cmd), "r": rep.JSON()}
 		if rep.T == "panic" || rep.T == "hang" {
 			ev["st"] = []any{}
+			ev["logged"] = false
 			tr.Emit(ev)
-			return nil
+			return false
 		}
 		st := srv.DB.VerifDump()
 		ev["st"] = projState(srv.Ep, st)
@@ -321,6 +333,62 @@ func runPersistWorkload(tr *Trace, w int, o persistOpts, r *rand.Rand, work stri
 		}
 		rc.mu.Unlock()
 		tot["commands"]++
+		return true
+	}
+	for _, s := range steps {
+		if s.Tick > 0 {
+			srv.Clock.AdvanceMs(s.Tick)
+		}
+		now := srv.Now()
+		switch {
+		case s.Kind == "select":
+			if err := srv.DB.SelectDB(s.Db); err != nil {
+				return err
+			}
+			srv.EmbDB = s.Db
+			continue
+		case s.Special == "rewrite":
+			var rerr error
+			begin := ncmd
+			if s.Inter != nil {
+				inter := s.Inter
+				rc.mu.Lock()
+				rc.interleaveAt = "aof.pre.sync"
+				rc.interleave = func() {
+					// the REWRITEAOF command is parked at this point on its own goroutine; this write
+					// comes from "another client" and runs to completion inside the rewrite window
+					rc.mu.Lock()
+					rc.nested = true // its own points are ordinary command points
+					rc.mu.Unlock()
+					runCmd(inter, now)
+					rc.mu.Lock()
+					rc.nested = false
+					rc.mu.Unlock()
+					tot["interleaved"]++
+				}
+				rc.mu.Unlock()
+			}
+			if oc, why := srv.guarded(func() { _, rerr = srv.DB.ExecuteCommand("REWRITEAOF") }); oc != "" {
+				tr.Emit(map[string]any{"ev": "rewrite", "run": w, "now": now, "err": oc + ": " + why})
+				return nil
+			}
+			rc.mu.Lock()
+			rc.inRw = false
+			rc.mu.Unlock()
+			rc.mu.Lock()
+			trunc := rc.rwTrunc
+			rc.interleave = nil
+			rc.mu.Unlock()
+			ev := map[string]any{"ev": "rewrite", "run": w, "now": now, "acked": begin, "trunc": trunc}
+			if rerr != nil {
+				ev["err"] = rerr.Error()
+			}
+			tr.Emit(ev)
+			continue
+		}
+		if !runCmd(s.Cmd, now) {
+			return nil
+		}
 	}
 	// image of the live directory after the last command, process still running
 	rc.handle("end.running")
@@ -337,7 +405,7 @@ func runPersistWorkload(tr *Trace, w int, o persistOpts, r *rand.Rand, work stri
 	images := append([]image{}, rc.images...)
 	images = append(images, image{Label: "clean.stop", Seq: rc.seq, Acked: ncmd, Exec: ncmd, Dir: cleanDir,
 		LogSize: fileSize(filepath.Join(cleanDir, "aof", "log.aof")), Synced: fileSize(filepath.Join(cleanDir, "aof", "log.aof")),
-		NowMs: endNow, RwBegin: rc.rwBegin, SnapSeen: rc.snaps})
+		NowMs: endNow, RwBegin: rc.rwBegin, SnapSeen: rc.snaps, RwN: rc.rwN})
 
 	for _, f := range rc.fops {
 		f["run"] = w
@@ -355,7 +423,7 @@ func runPersistWorkload(tr *Trace, w int, o persistOpts, r *rand.Rand, work stri
 		b, bdir, err := restoreFrom(dir, wdir, im.NowMs, true, false, o.sync)
 		ev := map[string]any{"ev": "image", "run": w, "at": im.Label, "k": im.Seq, "acked": im.Acked, "exec": im.Exec,
 			"cut": cut, "powerloss": powerloss, "now": im.NowMs, "sync": o.sync, "logsize": im.LogSize, "synced": im.Synced,
-			"inrw": im.InRw, "rwbegin": im.RwBegin, "recs": countRecords(filepath.Join(dir, "aof", "log.aof")),
+			"inrw": im.InRw, "rwbegin": im.RwBegin, "rwn": im.RwN, "rwstage": im.RwStage, "recs": countRecords(filepath.Join(dir, "aof", "log.aof")),
 			"pre": preambleClass(filepath.Join(dir, "aof", "preamble.bin"))}
 		if err != nil {
 			ev["err"] = err.Error()
@@ -439,7 +507,6 @@ func runPersistWorkload(tr *Trace, w int, o persistOpts, r *rand.Rand, work stri
 	_ = time.Now
 	return nil
 }
-
 
 // countRecords returns the number of complete command records (SELECT markers excluded) in a log file.
 func countRecords(path string) int {
